@@ -504,15 +504,20 @@ class ListGen(object):
                     body.append(["expr", ["bin", rnd.choice(["Lt", "Le", "Ne", "Gt"]), ["it"], self.lit(w, sg)]])
                 elif q < 0.45:
                     body.append(["expr", ["bin", rnd.choice(["Eq", "Ne", "Ge"]), ["sub", [name], 0], ["bin", "Add", ["idxvar"], ["lit", rnd.randint(0, 2)]]]])
-                elif q < 0.6:
+                elif q < 0.52:
                     # neighbours, guarded by the index (the condition is folded during expansion)
                     body.append(["if", ["bin", "Gt", ["idxvar"], ["lit", 0]],
                                  [["expr", ["bin", rnd.choice(["Le", "Lt", "Ne"]), ["sub", [name], -1], ["it"]]]], [], None])
                 elif q < 0.8:
                     # a condition on the index alone, at and around the boundaries, with and without an else branch
-                    cond = ["bin", rnd.choice(["Le", "Le", "Ge", "Ge", "Lt", "Gt", "Eq", "Ne"]), ["idxvar"], ["lit", rnd.randint(0, 2)]]
+                    cond = ["bin", rnd.choice(["Le", "Le", "Le", "Ge", "Ge", "Ge", "Lt", "Gt", "Eq", "Ne"]), ["idxvar"], ["lit", rnd.randint(0, 2)]]
                     then = [["expr", ["bin", rnd.choice(["Lt", "Le", "Ne", "Gt"]), ["it"], self.lit(w, sg)]]]
-                    els = [["expr", ["bin", rnd.choice(["Lt", "Ge", "Ne", "Eq"]), ["it"], self.lit(w, sg)]]] if rnd.random() < 0.6 else None
+                    if rnd.random() < 0.5:
+                        # the else branch demands the opposite of the then branch: taking the wrong one at the boundary index shows
+                        k = then[0][1]
+                        els = [["expr", ["bin", {"Lt": "Ge", "Le": "Gt", "Ne": "Eq", "Gt": "Le"}[k[1]], ["it"], k[3]]]]
+                    else:
+                        els = [["expr", ["bin", rnd.choice(["Lt", "Ge", "Ne", "Eq"]), ["it"], self.lit(w, sg)]]] if rnd.random() < 0.6 else None
                     body.append(["if", cond, then, [], els])
                 else:
                     f = rnd.choice(self.scalars)
